@@ -36,6 +36,9 @@ type StopCase struct {
 	SlowN    int  // HandlerSlow: yields per call
 	// PrevCancel: the preceding attempt (if PrevOK) was ended by caller cancellation instead of the master's EOF
 	PrevCancel bool `json:",omitempty"`
+	// LongCallMs: the first handler call takes this long (a sink that blocks for many seconds) while the
+	// master's further packets are already waiting; everything afterwards must go on as if nothing had happened
+	LongCallMs int `json:",omitempty"`
 	// PrevFail: the preceding attempt (if PrevOK) was ended by a handler failure (reported correctly, one hopes)
 	PrevFail bool `json:",omitempty"`
 	// schedule perturbation at the library's log calls (through the exported SetLogger)
@@ -399,6 +402,9 @@ func runStop(c *StopCase) *StopObs {
 	at.handler = func(tx *gobinlog.Transaction, st *attemptState) error {
 		calls++
 		n := calls
+		if c.LongCallMs > 0 && n == 1 {
+			time.Sleep(time.Duration(c.LongCallMs) * time.Millisecond)
+		}
 		if c.Handler == HandlerSlow {
 			for i := 0; i < c.SlowN; i++ {
 				runtime.Gosched()
@@ -474,7 +480,7 @@ func runStop(c *StopCase) *StopObs {
 		disarm := armPerturb(c.PerturbWho, c.PerturbMicros, c.PerturbLevel)
 		defer disarm()
 	}
-	at.fallback = stopBound
+	at.fallback = stopBound + time.Duration(c.LongCallMs)*time.Millisecond
 	at.fallbackCancel = cancel
 	at.onStall = func(st *attemptState) {
 		state, proven := blockedProof(int(st.streamGID.Load()), st.baseline)
